@@ -26,6 +26,20 @@ SHARED = [["$share", "g", "a", "+"], ["$share", "g", "#"], ["$share", "h", "a", 
           ["$share", "h", "+", "b"], ["$share", "h", "a", "+"], ["$share", "h", "#"]]
 
 
+def _matches(f, t):
+    """generation aid only (choice of a topic a filter matches); nothing is judged with it"""
+    if t and t[0].startswith("$") and f and f[0] in ("#", "+"):
+        return False
+    for i, lv in enumerate(f):
+        if lv == "#":
+            return True
+        if i >= len(t):
+            return False
+        if lv != "+" and lv != t[i]:
+            return False
+    return len(f) == len(t)
+
+
 class Gen:
     """Keeps a light model of which connections exist so that generated ops are mostly meaningful.
     It is bookkeeping for generation only; nothing here is used to judge the broker."""
@@ -285,7 +299,12 @@ def routing_history(rng, prof):
             for d, kk in list(g.conn.items()):
                 g.ops.append(op("ackall", k=kk))
         elif a == "inline_subscribe":
-            g.ops.append(op("inline_subscribe", t=rng.choice(prof.get("filters", FILTERS)), inline_id=rng.randint(1, 3)))
+            f = rng.choice(prof.get("filters", FILTERS))
+            o = op("inline_subscribe", t=f, inline_id=rng.randint(1, 3))
+            cand = [t for t in prof.get("topics", TOPICS) if _matches(f, t)]
+            if cand and rng.random() < 0.6:     # a publication while the new subscription receives its retained messages
+                o.update(dur_m=g.msg(), dur_t=rng.choice(cand))
+            g.ops.append(o)
         elif a == "inline_unsubscribe":
             g.ops.append(op("inline_unsubscribe", t=rng.choice(prof.get("filters", FILTERS)), inline_id=rng.randint(1, 3)))
     return g.ops
